@@ -84,7 +84,7 @@ def env():
     from esrally import config, metrics
     from esrally.track import track
 
-    root = tempfile.mkdtemp(prefix="verif-c08-", dir="/dev/shm" if os.path.isdir("/dev/shm") else None)
+    root = tempfile.mkdtemp(prefix="verif-c08-")
     cfg = config.Config()
     cfg.add(config.Scope.application, "system", "env.name", "verif")
     cfg.add(config.Scope.application, "track", "params", {})
